@@ -505,7 +505,8 @@ FAULTS = {
     'unknown-register': ['addi q9, t0, 1', 'add t0, t1, x32', 'lw t0, 0(zz)', 'sw t0, 4(nope)', 'mv t0, r77', 'beq foo, t0, {label}',
                          'add t0, t0, bar', 'lui x99, 1', 'jal x40, {label}', 'sub s0, s0, x77', 'not t0, q1', 'jr q5', 'li y1, 5',
                          'slli t0, t0, 32', 'srai s0, s0, -1', 'srli s0, s0, NOSHAMT', 'jalr q1', 'neg t0, x33', 'bnez q3, {label}',
-                         'lw x8, 0(x99)', 'sw x99, 0(x8)', 'and s0, s0, q8', 'addi x8, qq, 4'],
+                         'lw x8, 0(x99)', 'sw x99, 0(x8)', 'and s0, s0, q8', 'addi x8, qq, 4', 'li y1, 0x12345678', 'li q2, -100000', 'li zz, 0xfffff800',
+                         'seqz t0, q7', 'sgtz q1, t0', 'bgt q1, t0, {label}', 'blez q9, {label}', 'csrrw q1, t0, 0x300', 'mul t0, t1, q2', 'amoadd.w t0, t1, q3'],
     'undefined-label': ['beq t0, t1, nolabel', 'jal ra, nolabel', 'j nolabel', 'call nolabel', 'tail nolabel', 'dw nolabel', 'li t0, nolabel',
                         'lui t0, %hi(nolabel)', 'addi t0, t0, %lo(nolabel)', 'pack <I %position(nolabel, 0)', 'beqz t0, nolabel',
                         'bgt t0, t1, nolabel', 'jal nolabel', 'bne s0, x0, nolabel', 'addi t0, t0, %offset(nolabel)', 'blez a0, nolabel'],
